@@ -82,6 +82,13 @@ Example C09_register_dispatch_inner_first_nonvacuous :
   pair_free (CLayered (SVec [SLeaf 2 unhinted; SLeaf 3 unhinted]) (CLayered (SLeaf 1 unhinted) (CLeaf 0 unhinted))) = true.
 Proof. reflexivity. Qed.
 
+(** ... and that is so whichever constructor installs the stack: `Dispatch::new` and `Dispatch::from_static` each issue the
+    notification exactly once ([reg_log] repeats it as often as the translator counted in the source). *)
+Theorem C09_register_dispatch_either_constructor : forall i c,
+  reg_log gen_tables c i = fst (call (coll_obj gen_tables c) on_register_dispatch arg0).
+Proof. exact register_dispatch_either_constructor. Qed.
+Print Assumptions C09_register_dispatch_either_constructor.
+
 (** Known finding F18: as long as the source hands `on_register_dispatch` to a pair's outer half first,
     rec.with(L1.and_then(L2)) tells L2 before L1. *)
 Theorem C09_F18_refuted : f18_fixed gen_tables = false ->
